@@ -22,6 +22,12 @@ type kindT struct {
 	Core   bool // documented parameter/result kind (string, bool, int, int64, float64)
 	Named  bool // named Go type with a basic underlying type (time.Duration, type NStr string, ...)
 	GoName string
+
+	// kinds outside the supported set (Fam "x": pointers, interfaces, slices, maps, structs, funcs,
+	// channels, complex, several results ...), see exotic.go
+	Outs     []reflect.Type // more than one result: the result types
+	Variadic bool           // as the last parameter the slice type T makes the function variadic
+	XRes     []rval         // result pool of the kind
 }
 
 // named types: same Kind as a basic type, different reflect.Type
@@ -32,26 +38,30 @@ type (
 	NU8   uint8
 )
 
+func bk(name string, t reflect.Type, fam string, bits int, signed, core, named bool, goName string) kindT {
+	return kindT{Name: name, T: t, Fam: fam, Bits: bits, Signed: signed, Core: core, Named: named, GoName: goName}
+}
+
 var kinds = []kindT{
-	{"string", reflect.TypeOf(""), "string", 0, false, true, false, ""},
-	{"bool", reflect.TypeOf(true), "bool", 0, false, true, false, ""},
-	{"int", reflect.TypeOf(int(0)), "int", 64, true, true, false, ""},
-	{"int64", reflect.TypeOf(int64(0)), "int", 64, true, true, false, ""},
-	{"float64", reflect.TypeOf(float64(0)), "float", 64, false, true, false, ""},
-	{"int8", reflect.TypeOf(int8(0)), "int", 8, true, false, false, ""},
-	{"int16", reflect.TypeOf(int16(0)), "int", 16, true, false, false, ""},
-	{"int32", reflect.TypeOf(int32(0)), "int", 32, true, false, false, ""},
-	{"uint", reflect.TypeOf(uint(0)), "int", 64, false, false, false, ""},
-	{"uint8", reflect.TypeOf(uint8(0)), "int", 8, false, false, false, ""},
-	{"uint16", reflect.TypeOf(uint16(0)), "int", 16, false, false, false, ""},
-	{"uint32", reflect.TypeOf(uint32(0)), "int", 32, false, false, false, ""},
-	{"uint64", reflect.TypeOf(uint64(0)), "int", 64, false, false, false, ""},
-	{"float32", reflect.TypeOf(float32(0)), "float", 32, false, false, false, ""},
-	{"duration", reflect.TypeOf(time.Duration(0)), "int", 64, true, false, true, "time.Duration"},
-	{"nstr", reflect.TypeOf(NStr("")), "string", 0, false, false, true, "NStr"},
-	{"nf64", reflect.TypeOf(NF64(0)), "float", 64, false, false, true, "NF64"},
-	{"nbool", reflect.TypeOf(NBool(false)), "bool", 0, false, false, true, "NBool"},
-	{"nu8", reflect.TypeOf(NU8(0)), "int", 8, false, false, true, "NU8"},
+	bk("string", reflect.TypeOf(""), "string", 0, false, true, false, ""),
+	bk("bool", reflect.TypeOf(true), "bool", 0, false, true, false, ""),
+	bk("int", reflect.TypeOf(int(0)), "int", 64, true, true, false, ""),
+	bk("int64", reflect.TypeOf(int64(0)), "int", 64, true, true, false, ""),
+	bk("float64", reflect.TypeOf(float64(0)), "float", 64, false, true, false, ""),
+	bk("int8", reflect.TypeOf(int8(0)), "int", 8, true, false, false, ""),
+	bk("int16", reflect.TypeOf(int16(0)), "int", 16, true, false, false, ""),
+	bk("int32", reflect.TypeOf(int32(0)), "int", 32, true, false, false, ""),
+	bk("uint", reflect.TypeOf(uint(0)), "int", 64, false, false, false, ""),
+	bk("uint8", reflect.TypeOf(uint8(0)), "int", 8, false, false, false, ""),
+	bk("uint16", reflect.TypeOf(uint16(0)), "int", 16, false, false, false, ""),
+	bk("uint32", reflect.TypeOf(uint32(0)), "int", 32, false, false, false, ""),
+	bk("uint64", reflect.TypeOf(uint64(0)), "int", 64, false, false, false, ""),
+	bk("float32", reflect.TypeOf(float32(0)), "float", 32, false, false, false, ""),
+	bk("duration", reflect.TypeOf(time.Duration(0)), "int", 64, true, false, true, "time.Duration"),
+	bk("nstr", reflect.TypeOf(NStr("")), "string", 0, false, false, true, "NStr"),
+	bk("nf64", reflect.TypeOf(NF64(0)), "float", 64, false, false, true, "NF64"),
+	bk("nbool", reflect.TypeOf(NBool(false)), "bool", 0, false, false, true, "NBool"),
+	bk("nu8", reflect.TypeOf(NU8(0)), "int", 8, false, false, true, "NU8"),
 }
 
 const nBasic = 14 // kinds[:nBasic] are the unnamed basic types
@@ -74,11 +84,19 @@ func kindByName(n string) *kindT {
 			return &kinds[i]
 		}
 	}
+	for i := range xkinds {
+		if xkinds[i].Name == n {
+			return &xkinds[i]
+		}
+	}
 	return nil
 }
 
 // kindGroup is the coarse name used in finding keys for failures that do not depend on the value.
 func (k *kindT) group() string {
+	if k.Fam == "x" {
+		return "unsupported kind " + k.Name
+	}
 	if k.Core {
 		return k.Name
 	}
@@ -165,6 +183,10 @@ var floatParamPool = []sval{
 	fv(math.NaN(), "nan"), fv(math.Inf(1), "+inf"), fv(math.Inf(-1), "-inf"),
 	fv(math.MaxFloat32, "max32"), fv(math.SmallestNonzeroFloat32, "subnormal32"),
 	fv(0x1p-126, "minnormal32"), fv(16777217, "2^24+1"), fv(0.1, "0.1"),
+	// around the float32 range: the largest float32 negated, the next float64 above it (rounds back to
+	// max32), the first values that have no float32 at all (2^128 = max32 + 1 ulp32, 1e39), -max64
+	fv(-math.MaxFloat32, "-max32"), fv(math.Nextafter(math.MaxFloat32, math.Inf(1)), "max32-next64"),
+	fv(0x1p128, "2^128"), fv(-0x1p128, "-2^128"), fv(1e39, "1e39"), fv(-math.MaxFloat64, "-max64"),
 }
 
 // nativePool: values of the parameter kind's own script type, boundary-heavy.
@@ -180,6 +202,8 @@ func nativePool(k *kindT) []sval {
 		return []sval{{T: "bool", B: true, C: "true"}, {T: "bool", B: false, C: "false"}}
 	case "float":
 		return floatParamPool
+	case "x":
+		return nil
 	}
 	min, max := k.minmax()
 	var r []sval
@@ -225,6 +249,13 @@ func foreignPool(k *kindT) []sval {
 		if v.T != k.Fam {
 			r = append(r, v)
 		}
+	}
+	if k.Fam == "int" {
+		// floats without an image in (some or all of) the integer kinds: beyond int8 / below zero /
+		// the first float beyond int64 and the last one inside / beyond uint64 / no number at all
+		r = append(r, fv(300, "foreign:float-300"), fv(-1, "foreign:float--1"), fv(0x1p63, "foreign:float-2^63"),
+			fv(-0x1p63, "foreign:float--2^63"), fv(0x1p64, "foreign:float-2^64"), fv(1e30, "foreign:float-1e30"),
+			fv(-1e30, "foreign:float--1e30"), fv(math.NaN(), "foreign:float-nan"), fv(math.Inf(1), "foreign:float-inf"))
 	}
 	return r
 }
@@ -274,9 +305,14 @@ func expectParam(k *kindT, v sval) paramExp {
 		}
 		g := float32(f)
 		if float64(g) == f || f != f {
-			return paramExp{expExact, reflect.ValueOf(g)}
+			return paramExp{expExact, reflect.ValueOf(g).Convert(k.T)}
 		}
-		return paramExp{expRoundOrEr, reflect.ValueOf(g)}
+		if math.IsInf(float64(g), 0) {
+			// a finite value beyond the float32 range is not representable: rounding is no excuse
+			// for handing Go an infinity the script never passed
+			return paramExp{Class: expError}
+		}
+		return paramExp{expRoundOrEr, reflect.ValueOf(g).Convert(k.T)}
 	}
 	min, max := k.minmax()
 	if v.I < min || (v.I > 0 && uint64(v.I) > max) {
@@ -297,6 +333,8 @@ func expectParam(k *kindT, v sval) paramExp {
 func crossExpect(k *kindT, v sval) paramExp {
 	var num float64
 	switch {
+	case v.T == "float" && (math.IsNaN(math.Float64frombits(v.F)) || math.IsInf(math.Float64frombits(v.F), 0)):
+		return paramExp{Class: expOpen}
 	case v.T == "int":
 		num = float64(v.I)
 	case v.T == "float" && math.Float64frombits(v.F) == math.Trunc(math.Float64frombits(v.F)):
@@ -307,6 +345,16 @@ func crossExpect(k *kindT, v sval) paramExp {
 		num = 123
 	default:
 		return paramExp{Class: expOpen}
+	}
+	if k.Fam == "int" {
+		// an integral number outside the kind's range has no image: it cannot be converted
+		lo, hi := 0.0, math.Ldexp(1, k.Bits)
+		if k.Signed {
+			lo, hi = -math.Ldexp(1, k.Bits-1), math.Ldexp(1, k.Bits-1)
+		}
+		if num < lo || num >= hi {
+			return paramExp{Class: expError}
+		}
 	}
 	w := reflect.New(k.T).Elem()
 	switch {
@@ -365,17 +413,21 @@ func goStr(v reflect.Value) string {
 // ---- results -----------------------------------------------------------------------------
 
 type rval struct {
-	C string
-	V reflect.Value
+	C     string
+	V     reflect.Value
+	Multi []reflect.Value // all results of a several-results kind (V = the first)
 }
 
 func resultPool(k *kindT) []rval {
-	mk := func(c string, x any) rval { return rval{c, reflect.ValueOf(x).Convert(k.T)} }
+	if k.Fam == "x" {
+		return k.XRes
+	}
+	mk := func(c string, x any) rval { return rval{C: c, V: reflect.ValueOf(x).Convert(k.T)} }
 	switch k.Fam {
 	case "string":
 		var r []rval
 		for _, n := range stringNames {
-			r = append(r, rval{n, reflect.ValueOf(stringPool[n]).Convert(k.T)})
+			r = append(r, rval{C: n, V: reflect.ValueOf(stringPool[n]).Convert(k.T)})
 		}
 		return r
 	case "bool":
@@ -397,7 +449,7 @@ func resultPool(k *kindT) []rval {
 		} else {
 			w.SetUint(u)
 		}
-		r = append(r, rval{c, w})
+		r = append(r, rval{C: c, V: w})
 	}
 	set("1", 1, 1)
 	set("0", 0, 0)
@@ -446,6 +498,9 @@ func scriptStr(v data.Value) string {
 // text of the value is accepted too.
 func resultOK(k *kindT, want reflect.Value, got data.Value) bool {
 	switch k.Fam {
+	case "x":
+		// not a supported result kind: the statement only demands that the call does not crash
+		return true
 	case "string":
 		s, ok := got.(*data.StringValue)
 		return ok && s.Value == want.String()
